@@ -198,7 +198,7 @@ func gen(t *rapid.T) Case {
 		ReadBack: unif(t, "readback", 4) == 0,
 	}
 	s := &sim{m: newModel(c.Capacity), nkeys: 4 + unif(t, "nkeys", len(keyNames)-3)}
-	n := 8 + unif(t, "nops", maxOps-7)
+	n := 1 + unif(t, "nops", maxOps)
 	for i := 0; i < n; i++ {
 		op := s.genOp(t)
 		c.Ops = append(c.Ops, op)
